@@ -379,6 +379,9 @@ func (x *Exec) instantiate(f *F, terms []IdxT, depth int, out *[]string) {
 				}
 				var sub []string
 				x.instantiate(f.body(k.T), terms, depth+1, &sub)
+				if os.Getenv("GOVC_DEBUG_CAND") != "" && sAnd(sub...) == "false" {
+					fmt.Fprintf(os.Stderr, "FALSE INSTANCE of forallKeys %s at %s: %v\n", f.Var, truncate(k.T, 120), sub)
+				}
 				*out = append(*out, sImp(f.guard(k.T), sAnd(sub...)))
 			}
 			return
@@ -806,6 +809,26 @@ func (e *SpecEnv) eval(n ast.Expr) Val {
 		return Val{K: KSlice, T: b.T, Arr: b.Arr, Off: sAdd(b.Off, lo), Len: sSub(hi, lo), Cap: sSub(b.Cap, lo)}
 	case *ast.CallExpr:
 		return e.call(v)
+	case *ast.TypeAssertExpr:
+		// x.(T) for a concrete scalar type T: the payload of the interface value (meaningful where typeIs(x, T) holds)
+		a := e.eval(v.X)
+		at := e.x.eng.resolveType(e.pkg, v.Type)
+		if at == nil || a.K != KRef {
+			sfail("unsupported type assertion %s in a spec", exprString(n))
+		}
+		switch kindOf(at) {
+		case KRef, KInt, KBool, KStr, KArr:
+			tag := "box." + typeName(at)
+			e.x.tagID(tag)
+			argS := "Int"
+			if kindOf(at) != KRef {
+				argS = sortOfKind(kindOf(at))
+			}
+			e.x.decls.Fun(tag, []string{argS}, "Int")
+			e.x.decls.Fun(tag+".inv", []string{"Int"}, argS)
+			return Val{K: kindOf(at), T: at, S: "(" + tag + ".inv " + a.S + ")"}
+		}
+		sfail("type assertion to %s is not supported in specs", exprString(v.Type))
 	case *ast.CompositeLit:
 		// T{}: the zero value of a named array or struct type
 		if len(v.Elts) == 0 {
@@ -1378,6 +1401,7 @@ func (x *Exec) pureApp(fr *Frame, st *State, key string, con *Contract, sig *typ
 			pst.applied[sig0] = true
 			names := x.bindArgs(sig, args)
 			x.bindResults(names, sig, res)
+			x.lastPre, x.lastPreQ = nil, false
 			env := &SpecEnv{x: x, fr: fr, st: st, old: st, names: names, pkg: con.Pkg, depth: 1, g: gd}
 			if pst != st {
 				env.locals = pst
@@ -1400,11 +1424,28 @@ func (x *Exec) pureApp(fr *Frame, st *State, key string, con *Contract, sig *typ
 					x.proveF(fr, pst, fmt.Sprintf("wd:%s.pre[%d]", shortKey(key), i), "well-defined", goal, nil)
 				}
 				x.assumeG(pst, gd, nnf(f, false))
+				if x.inQBody > 0 {
+					if f.hasQ() {
+						x.lastPreQ = true
+					} else {
+						x.lastPre = append(x.lastPre, render(f))
+					}
+				}
 				i++
+			}
+			var preAtoms []string
+			if x.inQBody > 0 {
+				preAtoms = x.lastPre
 			}
 			for _, en := range con.Ensures {
 				if f, ok := env.evalCallerSide(en); ok {
 					x.assumeG(pst, gd, nnf(f, false))
+					if x.inQBody > 0 && !f.hasQ() {
+						// inside a quantifier body the state is a frozen copy and the assumption above is lost with it: keep the
+						// contract instance "requires ==> ensures" (valid for any arguments) as a fact for the queries that mention
+						// this application
+						x.addSideFact(res, sImp(sAnd(append([]string{gd}, preAtoms...)...), render(f)))
+					}
 				}
 			}
 		}
@@ -1427,6 +1468,30 @@ func (e *SpecEnv) byteContent(n ast.Expr) (content string, v Val) {
 	}
 	sfail("cmpBytes: %s is neither a byte slice nor a byte array", exprString(n))
 	return "", v
+}
+
+// addSideFact keeps a globally valid contract instance, triggered by the first symbol of the application's result
+func (x *Exec) addSideFact(res Val, fact string) {
+	if x.lastPreQ {
+		return // a quantified precondition cannot be put in front of the instance: no fact (sound, less complete)
+	}
+	terms := flatten(res)
+	if len(terms) == 0 || fact == "true" || strings.Contains(fact, "?") {
+		return // bound / probe variables: not a ground instance
+	}
+	trig := terms[0]
+	if i := strings.IndexAny(trig, " )"); strings.HasPrefix(trig, "(") && i > 0 {
+		trig = trig[1:i]
+	}
+	for _, f := range x.sideFacts[trig] {
+		if f == fact {
+			return
+		}
+	}
+	if x.sideFacts == nil {
+		x.sideFacts = map[string][]string{}
+	}
+	x.sideFacts[trig] = append(x.sideFacts[trig], fact)
 }
 
 // bodyHasPureCall: does the expression call anything but builtins (a cheap syntactic test)?
@@ -1744,7 +1809,8 @@ func (e *SpecEnv) builtinSpec(name string, c *ast.CallExpr) (Val, bool) {
 			// well-definedness of the body is checked once, below, for an arbitrary index; instantiations do not repeat it
 			saved := x.noWD
 			x.noWD = true
-			defer func() { x.noWD = saved }()
+			x.inQBody++
+			defer func() { x.noWD = saved; x.inQBody-- }()
 			ne := frozen.with(map[string]Val{id.Name: intVal(t, types.Typ[types.Int])})
 			return ne.evalBool(bodyAST).formula()
 		}
@@ -1784,6 +1850,8 @@ func (e *SpecEnv) builtinSpec(name string, c *ast.CallExpr) (Val, bool) {
 		fst := frozen.st
 		guard := func(t string) string { return x.mapHas(fst, m, Val{K: kk, T: kt, S: t}) }
 		body := func(t string) *F {
+			x.inQBody++
+			defer func() { x.inQBody-- }()
 			ne := frozen.with(map[string]Val{id.Name: {K: kk, T: kt, S: t}})
 			return ne.evalBool(bodyAST).formula()
 		}
@@ -2096,11 +2164,14 @@ func (e *SpecEnv) builtinSpec(name string, c *ast.CallExpr) (Val, bool) {
 	case "typeIs":
 		// typeIs(x, "pkg.T") : dynamic type test on interface values
 		a := arg(0)
-		lit, ok := c.Args[1].(*ast.BasicLit)
-		if !ok {
-			sfail("typeIs: second argument must be a string literal")
+		var s string
+		if lit, ok := c.Args[1].(*ast.BasicLit); ok {
+			s, _ = strconv.Unquote(lit.Value)
+		} else if at := e.x.eng.resolveType(e.pkg, c.Args[1]); at != nil {
+			s = typeName(at)
+		} else {
+			sfail("typeIs: second argument must be a type or a string literal")
 		}
-		s, _ := strconv.Unquote(lit.Value)
 		id := e.x.tagID("box." + sanitize(s))
 		e.x.decls.Fun("iface.tag", []string{"Int"}, "Int")
 		return boolVal(sAnd(sNot(sEq(a.S, "0")), sEq("(iface.tag "+a.S+")", sInt(int64(id))))), true
